@@ -26,7 +26,7 @@ PROPS = {
         "assumptions": ["net/http drops header names that are not tokens", "allow-list entries are lower-cased by Config.prepare (validateAllowOrigin)"],
     },
     "C19": {
-        "suites": [("pure", "throttle"), ("gw", "reset"), ("gw", "mixed")],
+        "suites": [("pure", "throttle"), ("gw", "throttle"), ("gw", "reset")],
         "theorems_carry": "running <= limit, FIFO start order, running = started - done, waiting implies all slots taken, every Done starts the next waiting callback, Done at 0 is the only panic",
         "correspondence_only": "one Done per governed request at system level (gateway-level runs)",
         "assumptions": ["Done's `go cb()` is modelled as an immediate start"],
